@@ -490,7 +490,7 @@ func genCraftWith(r *lib.Rng, forced []int, damage int) *craft {
 		known := true
 		shape := r.Intn(7)
 		if bad && i == badAt {
-			shape = 7 + r.Intn(10)
+			shape = 7 + r.Intn(12)
 		}
 		if forced != nil {
 			shape = forced[i]
@@ -568,7 +568,7 @@ func genCraftWith(r *lib.Rng, forced []int, damage int) *craft {
 			ms = []lib.PMsg{lib.DataOp(blk(1, 1)), lib.Range(t, -1, 1)}
 			known = false
 			classes = append(classes, "bad/negative-block")
-		case 10: // old file index out of range (first op: isFullFileOp indexes unchecked)
+		case 10: // old file index out of range in the first op (validateOp, before isFullFileOp): an error
 			ms = []lib.PMsg{lib.Range(int64(nOld)+int64(r.Intn(2)), int64(r.Intn(2)), 1)}
 			known = false
 			classes = append(classes, "bad/file-index")
@@ -593,6 +593,20 @@ func genCraftWith(r *lib.Rng, forced []int, damage int) *craft {
 			size = int64(len(od))
 			known = false
 			classes = append(classes, "bad/shifted-full")
+		case 17: // old file index out of range in a later op (validateOp in the relay loop): an error
+			ms = []lib.PMsg{lib.DataOp(blk(1, 2)), lib.Range(int64(nOld)+int64(r.Intn(2)), 0, 1)}
+			if r.Bool() {
+				ms[1].FileIndex = -1
+			}
+			known = false
+			classes = append(classes, "bad/file-index-later")
+		case 18: // bsdiff header whose target index is outside the old container: an error
+			ms = []lib.PMsg{lib.BH(int64(nOld) + int64(r.Intn(2))), lib.Ctl(nil, blk(2, 5), 0), lib.CtlEof()}
+			if r.Bool() {
+				ms[0].TargetIndex = -1
+			}
+			known = false
+			classes = append(classes, "bad/bsdiff-target-index")
 		case 15: // bsdiff whose output length is not the declared size
 			ms = []lib.PMsg{lib.BH(t), lib.Ctl(nil, blk(2, 5), 0), lib.CtlEof()}
 			size = 9
@@ -684,7 +698,7 @@ func min64(a, b int64) int64 {
 // well-formed series, every stream-level damage; the same in every run (fixed sub-seeds).
 func craftCorpus() []*craft {
 	var out []*craft
-	for shape := 0; shape <= 16; shape++ {
+	for shape := 0; shape <= 18; shape++ {
 		out = append(out, genCraftWith(lib.NewRng(uint64(1000+shape)), []int{shape}, -1))
 		if shape >= 7 {
 			out = append(out, genCraftWith(lib.NewRng(uint64(2000+shape)), []int{shape, 1}, -1))
